@@ -47,6 +47,8 @@ func newSandbox() (*sandbox, error) {
 		return nil, err
 	}
 	ioutil.WriteFile(filepath.Join(dir, "existing.txt"), []byte("line1\nline2\n"), 0644)
+	// a module that package.searchers[2] finds, so that the loader function it returns can be inventoried
+	ioutil.WriteFile(filepath.Join(dir, "existingmod.lua"), []byte("emit(\"MODULE-RAN\") return 1\n"), 0644)
 	ioutil.WriteFile(filepath.Join(dir, "mod.lua"), []byte("return {loaded = true}\n"), 0644)
 	os.Mkdir(filepath.Join(dir, "sub"), 0755)
 	ioutil.WriteFile(filepath.Join(dir, "sub", "inner.txt"), []byte("inner\n"), 0644)
